@@ -289,8 +289,8 @@ RULE = ('Seeded pattern lists (1..3, thorough 1..4 patterns of 1..5, thorough 1.
         "unbuffered 'rb' file, whole bytes string 1/17 each; 35% strict=False; 15% no end of line after the last line; "
         "each document also parsed from the str source of the same family); "
         "BYTES DOCUMENTS WITH ONE LINE THAT IS NOT VALID UTF-8 (1..3, thorough 1..5 Files paragraphs + License paragraphs; ~85% of the "
-        "pattern lists drawn from 30 non-ASCII patterns - 'docs/café/*' 'ünï/*.c' '中文/*' 'src/日本語/?.c' 'po/пер?вод.po' 'emoji/😀*' "
-        "... - 25% of the further patterns narrowing a pattern of an earlier paragraph; Files field one-line / continuation lines, "
+        "patterns drawn from a pool of 30 with non-ASCII characters - 'docs/café/*' 'ünï/*.c' '中文/*' 'src/日本語/?.c' 'po/пер?вод.po' 'emoji/😀*' "
+        "... ('?ber/*' is the one ASCII entry; every such list has at least one non-ASCII pattern) - 25% of the further patterns narrowing a pattern of an earlier paragraph; Files field one-line / continuation lines, "
         "first / last / in the middle of its paragraph, Comment field in front of or behind it, Copyright and License with 0..2 "
         "continuation lines, header with Upstream-Contact / Source / Comment / Disclaimer / Copyright / License at 30% each, all "
         "carrying author names; exactly one of those lines - never a Files line, never a License short name - encoded in one of 13 "
@@ -1580,7 +1580,7 @@ def gen_enc_case(r, wide):
         elif k < 0.85 or not earlier:
             pats = gen_enc_list(r, earlier)
             if not any(_non_ascii(x) for x in pats):
-                pats.insert(r.randrange(len(pats) + 1), r.choice(ENC_PATTERNS))
+                pats.insert(r.randrange(len(pats) + 1), r.choice([x for x in ENC_PATTERNS if _non_ascii(x)]))
             earlier.append(pats)
         else:
             pats = gen_list(r, wide, illegal_ok=False)
@@ -1594,7 +1594,8 @@ def gen_enc_case(r, wide):
         hdr.remove('comment2')
     if focus == 'header' and not hdr:
         hdr = [r.choice(ENC_HDR)]
-    na = [i for i, p in enumerate(paras) if 'F' in p and any(_non_ascii(x) for x in p['F'])]
+    na = [i for i, p in enumerate(paras) if 'F' in p and any(_non_ascii(x) for x in p['F'])] or \
+         [i for i, p in enumerate(paras) if 'F' in p]
     if focus == 'same-para-before-files' and not any(paras[i]['fo'] or paras[i]['pre'] for i in na):
         p = paras[r.choice(na)]
         if r.random() < 0.5:
